@@ -5,6 +5,7 @@ from flow import Taint, callee_matches, op_local, prep
 from rules import ForallGuard, CallGuard, CallSink, CmpGuard, RetSink, AggSink, BlockSink, P
 
 META = {
+    "explanation_r6": 'Also (round 6): the every-result test of verify_data_payment is decided in the accumulated-verdict form too (a flag cleared by a failing result / folded with &=, tested behind the exhausted loop) — `flag = result.isValid` (last result decides) is not that form.',
     "explanation_more": 'Also (round 4): the payment waiver for a held record rests on the store functions refusing a held record of another kind (get_local_transactions / register_validation answer only with the decoded local copy: C03.exists.*); as_xorname names the same bytes as as_bytes for every typed address variant, so a quote for one address cannot validate another (C03.addr-table).',
     "explanation": "Decides: (1) Network::put_local_record is called only from the four typed store functions, which are called only from "
                    "validate_and_store_record / store_replicated_in_record; (2) per RecordKind arm of validate_and_store_record (exhaustive "
